@@ -290,6 +290,11 @@ Definition model (F : flags) (st : pstate) (req : player) (oracle : list (bytes 
   else (false, []).
 
 Definition impl_bungee := model current.
+
+(* several requests through the same responder: the responder keeps no state between requests *)
+Definition model_history (F : flags) (st : pstate) (req : player) (oracle : list (bytes * option bytes))
+           (channel : bytes) (ds : list bytes) : list (bool * list effect) :=
+  map (model F st req oracle channel) ds.
 Definition spec_bungee := model all_fixed.
 
 (* ---------- triggers of the recorded findings (on the parsed request) ---------- *)
